@@ -4,7 +4,7 @@ from .. import common, gen, evalcorr, oracles
 from . import base
 from .C09 import tree_paths
 
-THEOREMS = ['C14_scan_complete', 'C14_paths_resolve', 'C14_iff']
+THEOREMS = ['C14_scan_complete', 'C14_paths_resolve', 'C14_iff', 'C14_overwritten_placeholder_does_not_count']
 
 
 def judge(texts):
